@@ -152,6 +152,15 @@ func checkC16Src(c caseC16, rec *ev.Rec) *ev.Failure {
 				"side", "reader", "what", "legal_wrong_bytes")
 		}
 	}
+	if ways, outs, errs := decodeVia("lzma2", b.Stream, readerDict("lzma2", b)); true {
+		for i, w := range ways {
+			if errs[i] != nil || !bytes.Equal(outs[i], b.Content) {
+				return ev.Fail(fmt.Sprintf("decoding a legal generated chunk sequence through %s gives (%d bytes, %v), Read gives the %d correct bytes", w, len(outs[i]), errs[i], len(b.Content)),
+					"side", "reader", "what", "via", "way", w)
+			}
+			rec.Class("read_via=" + w)
+		}
+	}
 	rec.Class("src_stream")
 	nck := 0
 	for _, ck := range res.Chunks {
